@@ -179,6 +179,15 @@ class Lexer:
             raise CklSyntaxError(f"Expected identifier but got {t}", t.pos)
         return t.value
 
+    def hexchar(self, digits, line, column):
+        for digit in digits:
+            if digit not in "0123456789abcdefABCDEF":
+                raise CklSyntaxError(
+                    "Invalid hex escape \\x" + digits,
+                    SourcePos(self.name, line, column)
+                )
+        return chr(int(digits, 16))
+
     def scan(self):
         self.tokens = []
         self.nextToken = 0
@@ -354,7 +363,7 @@ class Lexer:
 
             elif state == 312:  # hex num second digit
                 tempbuf += ch
-                token += chr(int(tempbuf, 16))
+                token += self.hexchar(tempbuf, line, column)
                 tempbuf = ""
                 state = 3
 
@@ -391,7 +400,7 @@ class Lexer:
 
             elif state == 412:  # hex num second digit
                 tempbuf += ch
-                token += chr(int(tempbuf, 16))
+                token += self.hexchar(tempbuf, line, column)
                 tempbuf = ""
                 state = 4
 
@@ -454,6 +463,8 @@ class Lexer:
                     token += ch
                 elif ch in "()[]<>=! \t\n\r+-*/%,;#":
                     here = SourcePos(fname, line, column - len(token))
+                    if not token.replace("_", ""):
+                        raise CklSyntaxError("Invalid hex literal", here)
                     token = str(int(token.replace("_", ""), 16))
                     self.tokens.append(Token(token, "int", here))
                     token = ""
@@ -469,6 +480,8 @@ class Lexer:
                     token += ch
                 elif ch in "()[]<>=! \t\n\r+-*/%,;#":
                     here = SourcePos(fname, line, column - len(token))
+                    if not token.replace("_", ""):
+                        raise CklSyntaxError("Invalid binary literal", here)
                     self.tokens.append(
                         Token(str(int(token.replace("_", ""), 2)), "int", here)
                     )
